@@ -211,6 +211,13 @@ class ExternMixin:
         self.st.ghost['clock_reads'] = VI(self.as_int(self.st.ghost.get('clock_reads', VI(0))) + 1)
         return SV('opq', self.sym('now', OPQ), 'datetime')
 
+    def ext_h5_file(self, args, kw, node):
+        """X-H5: h5py.File(path, 'r') opens the file read-only; any other mode could alter the caller's file (C19 obligation)"""
+        mode = args[1] if len(args) > 1 else kw.get('mode', VC('r'))
+        ok = mode.k == 'const' and mode.t == 'r'
+        self.oblige('source-file-opened-read-only[h5py.File]', z3.BoolVal(ok), node, info=f'mode {mode.t if mode.k == "const" else "symbolic"}')
+        return SV('opq', self.sym('h5file', OPQ), 'source')
+
     def ext_iinfo(self, args, kw, node):
         return SV('const', ('iinfo', args[0].t.name if args[0].k == 'const' else None))
 
@@ -218,12 +225,15 @@ class ExternMixin:
                  'np.random.randint': lambda self, args, kw, node: self.ext_rng(args, kw, node),
                  'datetime.now': lambda self, args, kw, node: self.ext_now(args, kw, node),
                  'np.iinfo': lambda self, args, kw, node: self.ext_iinfo(args, kw, node),
+                 'h5py.File': lambda self, args, kw, node: self.ext_h5_file(args, kw, node),
                  'np.issubdtype': lambda self, args, kw, node: VB(self.ufunc('issubdtype_' + (args[1].t.name.replace('.', '_') if args[1].k == 'const' else 'x'), OPQ, BOOL)(self.as_opq(args[0]))),
                  'np.zeros': lambda self, args, kw, node: self.ext_np_zeros(args, kw, node),
                  'np.dtype': lambda self, args, kw, node: self.ext_np_dtype(args, kw, node)}
 
     def opq_call(self, recv, name, args, kw, node):
         tag = recv.x
+        if tag == 'float' and name == 'is_integer' and z3.is_app(recv.t) and recv.t.decl().name() == 'of_int':
+            return VB(True)        # X-FLOAT: float(n) of an integer n (exactly representable or not) is integral
         if name == 'byteswap' and (args or kw):
             # X-NP7: byteswap() copies; byteswap(True) / byteswap(inplace=True) swaps the caller's buffer in place
             flag = args[0] if args else kw.get('inplace', VB(False))
